@@ -721,16 +721,16 @@ func c08engCases(tier string) []c08engCase {
 		a.objs = map[string]int{"o1": 6, "p": 4}
 		cs = append(cs, c08engCase{tag: "errres", hist: []c08ans{a, c08okAns(map[string]int{"r2": 8}, nil)}, errWithResults: true})
 	}
-	// 11. the handler decides LATE: the error answer comes at once, the decision 900 ms later — longer than the task's own
-	//     timeout of 400 ms, which bounds how long a REQUEST may stay unanswered, not how long a handler may think
+	// 11. the handler decides LATE: the error answer comes at once, the decision 1.8 s later — longer than the task's own
+	//     timeout of 1.2 s, which bounds how long a REQUEST may stay unanswered, not how long a handler may think
 	for _, mode := range []int{3, 1, 2} {
 		a := c08errAns(mode, 2)
-		a.lateMs = 900
+		a.lateMs = 1800
 		h := []c08ans{a}
 		if mode == 1 {
 			h = append(h, c08okAns(map[string]int{"r1": 1}, nil))
 		}
-		cs = append(cs, c08engCase{tag: "latehandler", timeoutMs: 400, hist: h})
+		cs = append(cs, c08engCase{tag: "latehandler", timeoutMs: 1200, hist: h})
 	}
 	// 9. conditions on the answered task's OWN outgoing flows read the result it has just stored
 	for _, x := range []int{1, 2, 0} {
